@@ -170,3 +170,13 @@ func VerifC05TopCached(h uint64) (*types.BlockHeader, bool) {
 	}
 	return nil, false
 }
+
+// VerifC05ChainPvGreatThanRemote exposes the fork-point tie-break comparison.
+func VerifC05ChainPvGreatThanRemote(chainNext, remote *types.BlockHeader) bool {
+	return chainPvGreatThanRemote(chainNext, remote)
+}
+
+// VerifC05RequestIds exposes getRequestIdFromTransactions (the "fixed" request id a block header must carry).
+func VerifC05RequestIds(txs []*types.Transaction, last map[string]uint64) map[string]uint64 {
+	return getRequestIdFromTransactions(txs, last)
+}
